@@ -4921,6 +4921,36 @@ _trait_setstate(trait_object *trait, PyObject *args)
         return NULL;
     }
 
+    if ((getattr_index < 0)
+        || (getattr_index >= (int)(sizeof(getattr_handlers)
+                                   / sizeof(getattr_handlers[0])))
+        || (setattr_index < 0)
+        || (setattr_index >= (int)(sizeof(setattr_handlers)
+                                   / sizeof(setattr_handlers[0])))
+        || (post_setattr_index < 0)
+        || (post_setattr_index >= (int)(sizeof(setattr_property_handlers)
+                                        / sizeof(setattr_property_handlers[0])))
+        || (validate_index < 0)
+        || (validate_index >= (int)(sizeof(validate_handlers)
+                                    / sizeof(validate_handlers[0])))
+        || (delegate_attr_name_index < 0)
+        || (delegate_attr_name_index
+            >= (int)(sizeof(delegate_attr_name_handlers)
+                     / sizeof(delegate_attr_name_handlers[0])))) {
+        /* The object fields were filled with borrowed references by
+           PyArg_ParseTuple: own them so that deallocation stays balanced. */
+        Py_INCREF(trait->py_post_setattr);
+        Py_INCREF(trait->py_validate);
+        Py_INCREF(trait->default_value);
+        Py_INCREF(trait->delegate_name);
+        Py_INCREF(trait->delegate_prefix);
+        Py_INCREF(trait->handler);
+        Py_INCREF(trait->obj_dict);
+        PyErr_SetString(
+            PyExc_ValueError, "Invalid trait state: handler index out of range.");
+        return NULL;
+    }
+
     trait->getattr = getattr_handlers[getattr_index];
     trait->setattr = setattr_handlers[setattr_index];
     trait->post_setattr =
